@@ -138,3 +138,55 @@ package storage
 //@   loop 0 invariant forall(t bitcoin.Hash32, has(newUnconfirmed, t) && !old(has(repo.unconfirmed, t)) ==> fresh(newUnconfirmed[t]) && newUnconfirmed[t].trusted && !newUnconfirmed[t].safe && !newUnconfirmed[t].unsafe)
 //@   loop 0 invariant forall(t bitcoin.Hash32, has(newUnconfirmed, t) ==> newUnconfirmed[t] != nil)
 //@   loop 0 invariant forall(t bitcoin.Hash32, forall(u bitcoin.Hash32, has(newUnconfirmed, t) && has(newUnconfirmed, u) && t != u ==> newUnconfirmed[t] != newUnconfirmed[u]))
+
+// ---- decoders of stored records: safety sweep (C20) --------------------------------------------
+
+//@ func readPeer
+//@   serves C20
+//@   safety index nil alloc allocbound
+//@   opt nomonitor = 1
+
+//@ func (*PeerRepository).Load
+//@   serves C20
+//@   safety index nil alloc allocbound
+//@   opt nomonitor = 1
+//@   loop 0 invariant true
+
+//@ func (*Reorg).Read
+//@   serves C20
+//@   safety index nil alloc allocbound
+//@   opt nomonitor = 1
+//@   requires buf != nil && reorg != nil
+//@   loop 0 invariant 0 <= _i && _i <= len(reorg.Blocks) && reorg != nil
+
+//@ func (*ReorgBlock).Read
+//@   serves C20
+//@   safety index nil alloc allocbound
+//@   opt nomonitor = 1
+//@   requires buf != nil
+//@   loop 0 invariant 0 <= _i && _i <= len(block.TxIds) && block != nil
+
+//@ func (*ReorgRepository).List
+//@   serves C20
+//@   opt partial = 1
+//@   safety index nil alloc allocbound
+//@   opt nomonitor = 1
+//@   loop 0 invariant 0 <= _i && _i <= len(data)
+
+//@ func readUnconfirmedTx
+//@   serves C20 C11
+//@   safety index nil alloc allocbound
+//@   opt nomonitor = 1
+
+//@ func (*TxRepository).Load
+//@   serves C20
+//@   safety index nil alloc allocbound
+//@   opt nomonitor = 1
+//@   loop 0 invariant true
+
+//@ func (*TxRepository).readBlock
+//@   serves C20
+//@   opt partial = 1
+//@   safety index nil alloc allocbound
+//@   opt nomonitor = 1
+//@   loop 0 invariant 0 <= offset && endOffset == len(data)
